@@ -98,7 +98,7 @@ class CommonJSONEncoder(json.JSONEncoder):
         elif isinstance(obj, datetime.datetime):
             return {'type{datetime}':
                     (obj.strftime(DATETIME_F_FORMAT),
-                     obj.utcoffset().seconds if obj.utcoffset() is not None else None,
+                     obj.utcoffset().total_seconds() if obj.utcoffset() is not None else None,
                      obj.tzname())}
         elif isinstance(obj, datetime.date):
             return {'type{date}': obj.strftime(DATE_F_FORMAT)}
